@@ -61,11 +61,14 @@ def charset_string(rng):
     parts = []
     for _ in range(rng.choice([1, 2, 3])):
         if rng.random() < 0.5:
-            a = rng.choice([0x30, 0x41, 0x61, 0x3b1, 0x4e00])
+            # also ranges that start with a character that is special in regular expressions ( ( ) * + . ? { | } )
+            a = rng.choice([0x30, 0x41, 0x61, 0x3b1, 0x4e00, 0x30, 0x41, 0x61, 0x28, 0x29, 0x2a, 0x2b, 0x2e, 0x3f, 0x7b, 0x7c])
             b = a + rng.randint(1, 20)
+            if b in (0x2d, 0x5c, 0x5b, 0x5d):
+                b += 1
             parts.append(chr(a) + '-' + chr(b))
         else:
-            cp = rng.choice([0x30, 0x41, 0x5a, 0x61, 0x7a, 0xe9, 0x3b1, 0x1f600, 0x20, 0x5f])
+            cp = rng.choice([0x30, 0x41, 0x5a, 0x61, 0x7a, 0xe9, 0x3b1, 0x1f600, 0x20, 0x5f, 0x28, 0x2b, 0x2e, 0x7c, 0x7d])
             parts.append(chr(cp))
     return ''.join(parts)
 
@@ -482,6 +485,9 @@ def run_case(case, world):
                 involved.append(objs[op['other'] % len(objs)])
             if any(getattr(x, 'negative', None) for x in involved):
                 feats.append('cc-negative-part-involved')
+            if name in ('cc-isub', 'cc-sub') and len(involved) == 2 and not getattr(involved[1], 'negative', None):
+                # the one subtraction the two-part representation gets right: a subtrahend without negative part
+                feats.append('cc-subtrahend-without-negative-part')
         if name.startswith('cc-') and isinstance(op.get('text'), str):
             if any(esc in op['text'] for esc in CC_ESCAPES if esc[1].isupper()):
                 feats.append('cc-negative-part-involved')
